@@ -32,9 +32,9 @@ let cfg_of n d w xi l rho pail =
   { c_n = z_of_string n; c_d = z_of_string d; c_w = z_of_string w; c_xi = z_of_string xi;
     c_l = z_of_string l; c_rho = z_of_string rho; c_pail = z_of_string pail }
 
-(* run-length compressed rows: site.idx:s|r:len*count *)
+(* run-length compressed rows: site.idx:s|r[!]:len*count  (! = rejection sampled: count is a minimum) *)
 let show_rows rows =
-  let key (((s, i), k), len) = Printf.sprintf "%s.%s:%s:%s" (site_name s) (z_to_string i) (if k then "s" else "r") (z_to_string len) in
+  let key (((s, i), k), len) = Printf.sprintf "%s.%s:%s:%s" (site_name s) (z_to_string i) ((if k then "s" else "r") ^ (if retry_site s then "!" else "")) (z_to_string len) in
   let rec go acc cur cnt = function
     | [] -> (match cur with None -> acc | Some c -> (c, cnt) :: acc)
     | r :: rest ->
